@@ -3,6 +3,7 @@
 from __future__ import annotations
 
 import logging
+import os
 import queue
 import signal
 import tempfile
@@ -1003,6 +1004,8 @@ class MarkovChainMonteCarloMethod:
             _check_and_process_init_state(state, self.transitions)
             for state in init_states
         ]
+        if n_process is None:
+            n_process = os.cpu_count() or 1
         # memory-mapping of chain data used if force_memmap flag set or sampling chains
         # in parallel
         use_memmap = force_memmap or n_process > 1
